@@ -48,6 +48,9 @@ type Opt struct {
 	Room         string   // override room_id
 	NoStateKey   bool     // emit without state_key
 	ContentOverride string
+	StateKey     *string  // override state_key
+	Unsigned     bool     // no signatures at all
+	TypeOverride string
 }
 
 type Real struct {
@@ -55,6 +58,16 @@ type Real struct {
 	ID      string
 	JSON    []byte
 	E       *srgen.E
+}
+
+// RealRoom is the room ID the materialised events carry.
+func RealRoom(h *srgen.History, real map[string]*Real) string {
+	if refversions.Get(h.Version).DomainlessRoomIDs {
+		if c := real[h.CreateID]; c != nil {
+			return "!" + c.ID[1:]
+		}
+	}
+	return h.RoomID
 }
 
 // Materialise builds the events of h in creation order. opts is keyed by nominal ID.
@@ -82,10 +95,11 @@ func Materialise(h *srgen.History, opts map[string]Opt) (map[string]*Real, []*Re
 		}
 		return out
 	}
+	room := h.RoomID
 	for _, e := range h.Order {
 		o := opts[e.ID]
 		sk := e.SK
-		ev := evgen.Ev{Type: e.Type, Sender: e.Sender, RoomID: h.RoomID, StateKey: &sk, Content: e.Content, Prev: mapIDs(e.Prev, nil), Auth: mapIDs(e.Auth, o.DropAuth), Depth: e.Depth, TS: e.TS, EventID: e.ID}
+		ev := evgen.Ev{Type: e.Type, Sender: e.Sender, RoomID: room, StateKey: &sk, Content: e.Content, Prev: mapIDs(e.Prev, nil), Auth: mapIDs(e.Auth, o.DropAuth), Depth: e.Depth, TS: e.TS, EventID: e.ID}
 		if o.Room != "" {
 			ev.RoomID = o.Room
 		}
@@ -94,6 +108,12 @@ func Materialise(h *srgen.History, opts map[string]Opt) (map[string]*Real, []*Re
 		}
 		if o.ContentOverride != "" {
 			ev.Content = o.ContentOverride
+		}
+		if o.StateKey != nil {
+			ev.StateKey = o.StateKey
+		}
+		if o.TypeOverride != "" {
+			ev.Type = o.TypeOverride
 		}
 		if row.DomainlessRoomIDs && e.Type == "m.room.create" && e.SK == "" {
 			ev.RoomID = ""
@@ -118,10 +138,15 @@ func Materialise(h *srgen.History, opts map[string]Opt) (map[string]*Real, []*Re
 			}
 			ks = append(ks, k)
 		}
-		js = evgen.SignEvent(h.Version, js, ks...)
+		if !o.Unsigned {
+			js = evgen.SignEvent(h.Version, js, ks...)
+		}
 		id := e.ID
 		if row.EventIDFormat != 1 {
 			id = refevent.EventID(h.Version, evgen.MustParse(js))
+		}
+		if row.DomainlessRoomIDs && e.Type == "m.room.create" && e.SK == "" {
+			room = "!" + id[1:] // the room ID is the create event's reference hash
 		}
 		r := &Real{Nominal: e.ID, ID: id, JSON: js, E: e}
 		byNominal[e.ID] = r
